@@ -422,14 +422,57 @@ func runC20(c *Ctx) {
 		for _, fn := range []string{rkFn + "altPutBlind", rkFn + "altPutChecked"} {
 			for _, s := range p.UsesOf(p.Func(fn).Obj) {
 				// used only as the put function of drainBuf inside a withAltDs closure, or called there
-				ok := false
-				for g := s.F; g != nil; g = g.Parent {
-					if g.Lit != nil {
-						if call, isCall := p.Parent(g.Lit).(*ast.CallExpr); isCall && eng.CalleeName(g.Parent.Info(), call) == rkFn+"withAltDs" {
-							ok = true
+				var okUse func(f *eng.Func, node ast.Node, depth int) bool
+				okUse = func(f *eng.Func, node ast.Node, depth int) bool {
+					for g := f; g != nil; g = g.Parent {
+						if g.Lit != nil {
+							if call, isCall := p.Parent(g.Lit).(*ast.CallExpr); isCall && eng.CalleeName(g.Parent.Info(), call) == rkFn+"withAltDs" {
+								return true
+							}
 						}
 					}
+					if depth > 2 {
+						return false
+					}
+					// handed to a helper read in place whose parameter is used only inside such a closure
+					var arg ast.Expr
+					if e, isE := node.(ast.Expr); isE {
+						arg = e
+					}
+					if se, isSel := p.Parent(node).(*ast.SelectorExpr); isSel && se.Sel == node {
+						arg = se
+					}
+					call, isCall := p.Parent(arg).(*ast.CallExpr)
+					if arg == nil || !isCall {
+						return false
+					}
+					h := p.Func(eng.CalleeName(f.Info(), call))
+					if h == nil || h.Adopter == nil {
+						return false
+					}
+					idx := -1
+					for i, a := range call.Args {
+						if a == arg {
+							idx = i
+						}
+					}
+					po := paramAt(h, idx)
+					if po == nil {
+						return false
+					}
+					all, nuse := true, 0
+					h.WalkDeep(func(x ast.Node) bool {
+						if id, isID := x.(*ast.Ident); isID && h.Info().Uses[id] == eng.Object(po) {
+							nuse++
+							if ef := p.EnclosingFunc(id); ef == nil || !okUse(ef, id, depth+1) {
+								all = false
+							}
+						}
+						return true
+					})
+					return all && nuse >= 1
 				}
+				ok := okUse(s.F, s.Node, 0)
 				c.Check(K(s.F.Name, "uses "+fn), s.Node.Pos(), ok, "alternate-slot writers run only inside withAltDs closures", "used in "+s.F.Name+" outside a withAltDs closure")
 			}
 		}
